@@ -23,6 +23,7 @@ SCENARIOS = {
     "C11": ("gtsim.scenarios.bayes", {"prop": "C11"}),
     "C15": ("gtsim.scenarios.history", {"prop": "C15"}),
     "C12": ("gtsim.scenarios.subbatch", {"prop": "C12"}),
+    "C18": ("gtsim.scenarios.boundary", {"prop": "C18"}),
 }
 
 RUNS = {  # property -> (quick runs, thorough runs)
@@ -33,6 +34,7 @@ RUNS = {  # property -> (quick runs, thorough runs)
     "C11": (1500, 40000),
     "C15": (1200, 40000),
     "C12": (1000, 30000),
+    "C18": (400, 12000),
 }
 
 PER_RUN_TIMEOUT = 600
